@@ -132,6 +132,10 @@ def universes_c06():
         # authentic but malformed where no validator looks (a deletion with a reference that is not an id, an expiration tag
         # without a value): the relay may refuse them, but a refusal must leave no trace - they fail late, inside the write
         E("dx", "A", 5, 31, [["e", "n1"], ["e", "nothex"]], dub=True), E("xb", "A", 1, 12, [["expiration"]], dub=True),
+        # authentic events beyond what a storage engine may be able to represent (LMDB keys hold four-byte timestamps and at most
+        # 511 bytes): a relay may refuse them - with a reason and without a trace - but must not acknowledge and then lose them
+        E("ot", "A", 1, 13, created_at=2 ** 32, dub=True), E("ng", "A", 1, 14, created_at=-5, dub=True),
+        E("lt", "A", 1, 15, [["t", "big"]], dub=True),
     ]
     # neighbours in the replaceable address space: same author and kind under other d values (older and newer), the same kind
     # of another author, the next kind - an acknowledged event may only give way to a newer version of its own address
@@ -316,7 +320,7 @@ def universes_c04():
 
 PALETTE_OF = {}
 
-SYMTABS = {"ack": {"nothex": "this-is-not-an-event-id"}, "service": {"quo": "a'\"\\b\u00e4\n", "pkB": C.pubkey("B"), "bob": "bob@example.com"}, "dunicode": {"uml": "\u00e4", "umlx": "\u00e4x"},
+SYMTABS = {"ack": {"nothex": "this-is-not-an-event-id", "big": "x" * 600}, "service": {"quo": "a'\"\\b\u00e4\n", "pkB": C.pubkey("B"), "bob": "bob@example.com"}, "dunicode": {"uml": "\u00e4", "umlx": "\u00e4x"},
            "delnone": {"acoord": "30000:%s:x" % C.pubkey("A")},
            "verbatim": {"sp": " a ", "up": "ABCDEF", "num": "007", "nfc": "\u00e9", "nfd": "e\u0301"},
            "gcdigits": {"v999": "999", "vbig": "17000000150", "vz14": "01700000014", "vi14": 1700000014, "vneg": "0abc"}}
